@@ -3,7 +3,7 @@
 --   run HASHER FIELD SEED OP...
 --     HASHER  toy0 | toy1 | toy2 (toy hasher, modelled) | a real hasher name (not modelled: "-")
 --     FIELD   f64 | f62 | f128        SEED  comma separated canonical integers, or "-"
---     OP      rs:HEX (reseed with H::hash(bytes)) | d:DEG (draw) | di:N:DOMAIN:NONCE (draw_integers)
+--     OP      rs:HEX (reseed with H::hash(bytes)) | rd:HEX (reseed with the 32-byte digest itself) | d:DEG (draw) | di:N:DOMAIN:NONCE (draw_integers)
 --             | lz:NONCE (check_leading_zeros) | gr:GF (the prover's nonce search, at most 4096 candidates)
 --   output: one item per op joined by ";": u | e:c0,c1,.. | i:v0,v1,.. | n:K | g:NONCE | g:none | err | panic (stops)
 --   pow FIELD HASHER GF   end-to-end grinding check against prover and verifier (not modelled: "-")
@@ -95,6 +95,13 @@ def interp (H : DrvHasher) (fd : FieldDesc) : Nat â†’ Coin (Option (List Nat)) â
         let (o, c') := step H.ops c (.reseed (H.hash bs))
         interp H fd fuel c' rest (outStr o :: acc)
       | none => ["bad-op"]
+    | ["rd", h] =>
+      match unhex h with
+      | some bs =>
+        if bs.length â‰  32 then ["bad-op"] else
+        let (o, c') := step H.ops c (.reseed (some bs))
+        interp H fd fuel c' rest (outStr o :: acc)
+      | none => ["bad-op"]
     | ["d", deg] =>
       match deg.toNat? with
       | some deg =>
@@ -150,6 +157,7 @@ def handle : List String â†’ String
     | some fd, some t => runLine (tableHasher t) fd seed ops
     | _, _ => "bad-op"
   | "pow" :: _ => "-"
+  | "bnd" :: _ => "-"
   | _ => "bad-op"
 
 end Drv.C19
